@@ -15,6 +15,7 @@ const FLUSHES: [MZFlush; 4] = [MZFlush::None, MZFlush::Sync, MZFlush::Finish, MZ
 pub fn action_name(a: usize) -> String { format!("c{}o{}f{}", a & 3, (a >> 2) & 3, (a >> 4) & 3) }
 
 struct Runner<'a> {
+    klines: Vec<String>, record: bool,
     s: &'a S13, st: Box<InflateState>, ipos: usize, delivered: Vec<u8>, ended: bool, data_err: bool,
     finished_flag: bool, poisoned: bool, calls: usize, effective_calls: usize, check_prefix: bool,
 }
@@ -31,9 +32,18 @@ impl<'a> Runner<'a> {
         self.calls += 1;
         let calls = self.calls;
         let ipos = self.ipos;
+        let pre = self.st.verif_snapshot();
         let st = &mut self.st;
         let r = catch_unwind(AssertUnwindSafe(|| inflate(st, &s.z[ipos..ipos + chunk], &mut out, flush)));
         let r = match r { Ok(r) => r, Err(_) => { problems.push(("panic".into(), format!("panic in inflate() call #{} ({})", calls, phase))); return None; } };
+        let tr = self.st.verif_take_core_trace();
+        if self.record {
+            let post = self.st.verif_snapshot();
+            let script: Vec<String> = tr.iter().map(|e| format!("{}:{}:{}", e[4], e[5], e[6])).collect();
+            let args: Vec<String> = tr.iter().map(|e| format!("{}:{}:{}:{}", e[0], e[1], e[2], e[3])).collect();
+            let code = match r.status { Ok(s) => s as i32, Err(e) => e as i32 };
+            self.klines.push(format!("IFL fmt={} pre={},{},{},{},{} in={} out={} flush={} res={}:{}:{} post={},{},{},{},{} script={} args={}", if s.zlib { 0 } else { 2 }, pre[0], pre[1], pre[2], pre[3], pre[4], chunk, out_len, flush as i32, code, r.bytes_consumed, r.bytes_written, post[0], post[1], post[2], post[3], post[4], if script.is_empty() { "-".into() } else { script.join(";") }, if args.is_empty() { "-".into() } else { args.join(";") }));
+        }
         if r.bytes_consumed > chunk || r.bytes_written > out_len { problems.push(("counts".into(), format!("call #{}: consumed {}/{} written {}/{}", calls, r.bytes_consumed, chunk, r.bytes_written, out_len))); return None; }
         self.ipos += r.bytes_consumed;
         self.delivered.extend_from_slice(&out[..r.bytes_written]);
@@ -89,14 +99,16 @@ impl<'a> Runner<'a> {
 
 /// Run `actions` (indices into the 64-letter alphabet), then the usual driver loop, checking the
 /// protocol after every call. Returns problems.
-pub fn run_sequence(s: &S13, actions: &[usize], rng_seed: u64, counters: &mut Vec<String>) -> Vec<(String, String)> {
+pub fn run_sequence(s: &S13, actions: &[usize], rng_seed: u64, counters: &mut Vec<String>) -> Vec<(String, String)> { run_sequence_k(s, actions, rng_seed, counters, false).0 }
+
+pub fn run_sequence_k(s: &S13, actions: &[usize], rng_seed: u64, counters: &mut Vec<String>, record: bool) -> (Vec<(String, String)>, Vec<String>) {
     let mut problems: Vec<(String, String)> = vec![];
-    let mut rn = Runner { s, st: InflateState::new_boxed(if s.zlib { DataFormat::Zlib } else { DataFormat::Raw }), ipos: 0, delivered: vec![], ended: false, data_err: false, finished_flag: false, poisoned: false, calls: 0, effective_calls: 0, check_prefix: s.kind != "corrupt" };
+    let mut rn = Runner { klines: vec![], record, s, st: InflateState::new_boxed(if s.zlib { DataFormat::Zlib } else { DataFormat::Raw }), ipos: 0, delivered: vec![], ended: false, data_err: false, finished_flag: false, poisoned: false, calls: 0, effective_calls: 0, check_prefix: s.kind != "corrupt" };
     let mut rng = crate::rng::Rng::new(rng_seed);
     for &a in actions {
         let f = FLUSHES[(a >> 4) & 3];
-        if rn.step(CHUNKS[a & 3], OUTS[(a >> 2) & 3], f, &mut problems, "prefix").is_none() { return problems; }
-        if !problems.is_empty() { return problems; }
+        if rn.step(CHUNKS[a & 3], OUTS[(a >> 2) & 3], f, &mut problems, "prefix").is_none() { return (problems, std::mem::take(&mut rn.klines)); }
+        if !problems.is_empty() { return (problems, std::mem::take(&mut rn.klines)); }
     }
     // the usual driver loop: feed what is left, collect output, finish at the end of input
     let mut idle = 0;
@@ -108,8 +120,8 @@ pub fn run_sequence(s: &S13, actions: &[usize], rng_seed: u64, counters: &mut Ve
         let chunk = if fl == MZFlush::Finish { left } else { chunk };
         let olen = *rng.pick(&[1usize, 7, 300, 40000, 100_000]);
         let before = (rn.ipos, rn.delivered.len());
-        let stt = match rn.step(chunk, olen, fl, &mut problems, "loop") { None => return problems, Some(x) => x };
-        if !problems.is_empty() { return problems; }
+        let stt = match rn.step(chunk, olen, fl, &mut problems, "loop") { None => return (problems, std::mem::take(&mut rn.klines)), Some(x) => x };
+        if !problems.is_empty() { return (problems, std::mem::take(&mut rn.klines)); }
         if (rn.ipos, rn.delivered.len()) == before { idle += 1; } else { idle = 0; }
         if let Err(MZError::Buf) = stt {
             if rn.ipos == s.z.len() && idle >= 2 {
@@ -124,7 +136,8 @@ pub fn run_sequence(s: &S13, actions: &[usize], rng_seed: u64, counters: &mut Ve
     }
     if s.kind == "truncated" && rn.ended { problems.push(("streamend".into(), "truncated stream ended".into())); }
     counters.push(format!("final_{}", if rn.ended { "end" } else if rn.data_err { "dataerr" } else if rn.poisoned { "poisoned" } else { "open" }));
-    problems
+    let kl = std::mem::take(&mut rn.klines);
+    (problems, kl)
 }
 
 pub fn make_streams(ctx: &mut Ctx, n_each: usize) -> Vec<S13> {
@@ -177,7 +190,8 @@ pub fn run(ctx: &mut Ctx) {
         while idx < total {
             let mut actions = vec![]; let mut x = idx; for _ in 0..depth { actions.push(x % 64); x /= 64; }
             let seed = (idx as u64) * 7919 + si as u64;
-            let p = run_sequence(s, &actions, seed, &mut counters);
+            let (p, kl) = run_sequence_k(s, &actions, seed, &mut counters, idx % 5 == 0);
+            for l in kl { ctx.line(&l); }
             ctx.evals += 1; ctx.nontrivial.insert(fnv(&s.z) ^ (idx as u64) << 8 | 1);
             ctx.count(&format!("kind_{}", s.kind));
             report(ctx, s, &actions, seed, p);
@@ -191,7 +205,8 @@ pub fn run(ctx: &mut Ctx) {
             let n = ctx.rng.range(0, 12);
             let actions: Vec<usize> = (0..n).map(|_| ctx.rng.below(64)).collect();
             let seed = ctx.rng.next();
-            let p = run_sequence(s, &actions, seed, &mut counters);
+            let (p, kl) = run_sequence_k(s, &actions, seed, &mut counters, true);
+            for l in kl { ctx.line(&l); }
             ctx.evals += 1; ctx.nontrivial.insert(seed | 1);
             ctx.count("random_schedules");
             report(ctx, s, &actions, seed, p);
